@@ -232,6 +232,46 @@ func c04(args []string) error {
 					add(alpha, names, seqs, "cli:subseq --ref-seq", fmt.Sprintf("OpSubseqRef %s %s %s", coqStr(name), coqZ(s), coqZ(l)), cres, map[string]interface{}{"cli": true})
 				}
 			}
+			// goalign subseq --reverse: all but the window (the whole alignment as window leaves nothing: an error)
+			if bin := os.Getenv("VERIF_GOALIGN_BIN"); bin != "" && len(names) > 0 && len(seqs[0]) > 0 && r.Intn(3) == 0 {
+				tmpd, e := os.MkdirTemp("", "c04cli")
+				if e == nil {
+					L := len(seqs[0])
+					rs, rl := r.Intn(L+1), 0
+					rl = r.Intn(L - rs + 1)
+					switch r.Intn(6) {
+					case 0:
+						rs, rl = 0, L
+					case 1:
+						rl = L - rs
+					case 2:
+						rs, rl = boundaryInt(r, L), boundaryInt(r, L)
+					}
+					inf := filepath.Join(tmpd, "in.fa")
+					var sb strings.Builder
+					for k := range names {
+						fmt.Fprintf(&sb, ">%s\n%s\n", names[k], seqs[k])
+					}
+					os.WriteFile(inf, []byte(sb.String()), 0644)
+					cres := result{outN: []string{}, outS: []string{}, ints: []int{}}
+					cmd := exec.Command(bin, "subseq", "-i", inf, fmt.Sprintf("--start=%d", rs), fmt.Sprintf("--length=%d", rl), "--reverse")
+					var stdout, stderr bytes.Buffer
+					cmd.Stdout, cmd.Stderr = &stdout, &stderr
+					runErr := cmd.Run()
+					cres.class = OutOk
+					if strings.Contains(stderr.String(), "panic:") || strings.Contains(stderr.String(), "goroutine ") {
+						cres.outN, cres.outS = []string{"<the command panicked>"}, []string{""} // neither a result nor an error
+					} else if runErr != nil {
+						cres.class = OutErr
+					} else if al, pe := fasta.NewParser(bytes.NewReader(stdout.Bytes())).Parse(); pe == nil {
+						cres.outN, cres.outS = alignContent(al)
+					} else {
+						cres.class = "BadOutput"
+					}
+					os.RemoveAll(tmpd)
+					add(alpha, names, seqs, "cli:subseq --reverse", fmt.Sprintf("OpSubseqRev %s %s", coqZ(rs), coqZ(rl)), cres, map[string]interface{}{"cli": true})
+				}
+			}
 		case 6: // RefSites
 			name := "nosuch"
 			ung := 0
